@@ -13,7 +13,7 @@ RULE = ("scenario = scheduler (3 tz classes) with 0-8 jobs of mixed types (batch
         "forced; correspondence = Lean selection model on the observed (due, weight) table vs the invoked jobs; "
         "non-trivial = at least one poll where some but not all jobs are due; distinct by scenario hash")
 ASSUMPTIONS = c01.ASSUMPTIONS + ["callbacks do not touch the scheduler (C15 covers those)"]
-EXTRA_PROPS = ()
+EXTRA_PROPS = ("C04All",)
 
 
 def scenarios(rng, n, tier):
